@@ -228,6 +228,19 @@ func runC20(p *core.Prog, r *core.Report) {
 	// ---------------- R6 putToShard
 	r6 := r.Rule("C20.R6", "putToShard calls the shard's Put only after the shard's Exists answered (false, nil)", 1)
 	putOnlyWhereAbsent(p, r, r6)
+	// ---------------- R8 'already stored' is said only for something a read can find (or that expired)
+	r8 := r.Rule("C20.R8", "existsPhysical (its 'true' makes Put acknowledge without storing anything) answers true only after some shard's Exists returned (true, nil) or reported the object expired: 'not found' / 'removed' answers of a shard — a garbage-marked copy waiting for GC gives 'not found' — never count as stored", 1)
+	if ef := p.Func("(*pkg/local_object_storage/engine.StorageEngine).existsPhysical"); ef == nil {
+		r.Fatalf("C20.R8: existsPhysical not found")
+	} else {
+		gs := []core.Guard{
+			{Name: "a-shard-has-it", Match: func(s core.Site) bool { return strings.HasSuffix(s.Name, "shard.Shard).Exists") }, Comps: []core.Comp{{Result: 0, Kind: core.IsTrue}}},
+			core.G("expired-there", core.IsTrue, "pkg/local_object_storage/shard.IsErrObjectExpired"),
+		}
+		core.CheckSuccessFn(p, r8, ef, core.SuccessRule{ResultIdx: 0, SuccessBool: true, MinReturns: 1, Guards: gs,
+			Derived: []core.Derived{{Name: "stored-and-findable-or-expired", Alts: [][]string{{"a-shard-has-it"}, {"expired-there"}}}}, Need: []string{"stored-and-findable-or-expired"}})
+	}
+	r.Explain += " (R8) an acknowledged Put is readable: the engine's Put returns nil without writing when existsPhysical says true, and existsPhysical says true only on the strength of a shard's (true, nil) or of the expired verdict; a copy that is garbage-marked and waiting for GC answers 'not found' and must make the repeated Put fail rather than be acknowledged."
 	// ---------------- R7 removal callbacks do not hide a shard's refusal
 	r7 := r.Rule("C20.R7", "the per-shard callbacks the engine's removals run (Delete, DeleteRedundantCopies, Drop, expired objects) report success only if the shard's own removal call returned nil: a shard that refuses (read-only, degraded) fails the removal instead of being skipped silently", 2)
 	nCb := 0
